@@ -87,6 +87,9 @@ type drv struct {
 	cfg    *common.Config
 	rep    *common.Report
 	loader *ctxload.Loader
+	// pub: the package default loader during the run; it knows only the standard public contexts,
+	// NOT the generated https://ctx.example/N contexts that only `loader` (WithDocumentLoader) serves
+	pub    *ctxload.Loader
 	gen    *docgen.Gen
 	scens  []*scen
 	orders map[int]int
@@ -809,7 +812,10 @@ func (d *drv) scenario(in Input) {
 		d.rep.Fail("c13-second-generation", "MarshalBinary of a restored merklizer failed: "+o.Msg, in)
 	}
 
-	// (a') the method called directly on a zero Merklizer (no options: package default hasher)
+	// (a') the method called directly on a zero Merklizer (no options: package default hasher).
+	// The option-less entry points resolve contexts through the package default loader: for
+	// them (only) the full offline loader is installed as the default.
+	merklize.SetDocumentLoader(d.loader)
 	if !in.Cfg {
 		var mdir merklize.Merklizer
 		o := mzrun.Guard(30*time.Second, func() error { return mdir.UnmarshalBinary(b1) })
@@ -853,6 +859,7 @@ func (d *drv) scenario(in Input) {
 			d.fullObserve(s, m1, mb, want, ents1, "MerklizerFromBytes without options")
 		}
 	}
+	merklize.SetDocumentLoader(d.pub)
 	d.fullObserve(s, m1, m2, want, ents1, "restore")
 
 	// (b) repeated marshals: different map orders, same outcome
@@ -1665,7 +1672,8 @@ func Run(cfg *common.Config) (*common.Report, error) {
 	d := &drv{cfg: cfg, rep: rep, loader: ctxload.New(), gen: docgen.New(cfg.Rng), orders: map[int]int{}}
 	// restores through entry points that take no options (zero-value UnmarshalBinary, gob,
 	// MerklizerFromBytes(blob)) resolve contexts through the package default loader
-	merklize.SetDocumentLoader(d.loader)
+	d.pub = ctxload.New()
+	merklize.SetDocumentLoader(d.pub)
 	if cfg.Replay != "" {
 		var rf struct {
 			Input Input `json:"input"`
